@@ -46,7 +46,11 @@ type stmtSliceContainerMatcher struct {
 func (c *matcherCompiler) compilePGoStmtList(slist *pgo.StmtList) Matcher {
 	var list []ast.Stmt
 	if len(slist.List) > 0 {
-		list = append(list, dotsStmt(c.patchStart))
+		// The implicit leading "..." must not share its position with an
+		// explicit "..." written in the first column of the patch's first
+		// line, because skipped statements are recorded by position. The
+		// character before the patch is the newline ending the "@@" line.
+		list = append(list, dotsStmt(c.patchStart-1))
 		list = append(list, slist.List...)
 		list = append(list, dotsStmt(c.patchEnd))
 	}
@@ -132,7 +136,11 @@ type stmtSliceContainerReplacer struct {
 func (c *replacerCompiler) compilePGoStmtList(slist *pgo.StmtList) Replacer {
 	var list []ast.Stmt
 	if len(slist.List) > 0 {
-		list = append(list, dotsStmt(c.patchStart))
+		// The implicit leading "..." must not share its position with an
+		// explicit "..." written in the first column of the patch's first
+		// line, because skipped statements are recorded by position. The
+		// character before the patch is the newline ending the "@@" line.
+		list = append(list, dotsStmt(c.patchStart-1))
 		list = append(list, slist.List...)
 		list = append(list, dotsStmt(c.patchEnd))
 	}
